@@ -67,3 +67,23 @@ Proof. apply lin_check_correct; [exact mres_eqb_spec|exact mop_eqb_spec|exact fm
 Lemma set_lin_check_correct s h :
   set_lin_check s h = true <-> linearizable fset sop mres fset_step s h.
 Proof. apply lin_check_correct; [exact mres_eqb_spec|exact sop_eqb_spec|exact fset_eqb_spec]. Qed.
+
+(* the per-call judgement of the lazy-constructor clause *)
+Definition LazyCallOK (c : lazy_call) : Prop :=
+  (lz_calls c <= 1)%nat /\
+  (lz_loaded c = false -> lz_calls c = 1%nat /\ lz_actual c = lz_v c) /\
+  (lz_loaded c = true -> lz_calls c = 0%nat).
+
+Lemma lazy_call_ok_b_spec c : lazy_call_ok_b c = true <-> LazyCallOK c.
+Proof.
+  unfold lazy_call_ok_b, LazyCallOK. destruct (lz_loaded c).
+  - rewrite Nat.eqb_eq. split; [intros ->; repeat split; auto; discriminate|intros (_ & _ & H); auto].
+  - rewrite andb_true_iff, Nat.eqb_eq, Z.eqb_eq. split.
+    + intros [-> ->]. repeat split; auto; discriminate.
+    + intros (_ & H & _). destruct (H eq_refl). auto.
+Qed.
+
+Lemma lazy_calls_ok_spec l : forallb lazy_call_ok_b l = true <-> Forall LazyCallOK l.
+Proof.
+  rewrite forallb_forall, Forall_forall. split; intros H c Hc; apply lazy_call_ok_b_spec; auto.
+Qed.
